@@ -375,8 +375,10 @@ RULE_C03 = ('C03: same text domain as C02 (different seeds).  Non-trivial = at l
             'they are a prefix of the lexer stream with a whitespace-only rest; parent of every child is its container, '
             'statement parent is None; no empty group; no node reachable twice; cached value == text of the leaves; '
             'token_index, token_next/token_prev for every child index and the four skip_ws/skip_cm combinations, '
-            'get_token_at_offset for every offset of every statement (and leaf borders of every inner group), '
-            'within / has_ancestor / is_child_of against the ancestor chain of the own walker.')
+            'get_token_at_offset for every offset of every statement of <= 150 characters (first/last offset of up to 32 '
+            'evenly spread leaves for longer statements, up to 8 for inner groups, plus -1, 0, len-1, len, len+1), '
+            'within / has_ancestor / is_child_of against the ancestor chain of the own walker (all nodes; ~150 evenly spread nodes '
+            'in statements with more).')
 
 _BIG = 48
 
@@ -492,11 +494,13 @@ def _c03_statement(text, stmt, sql, T, seen, lex_iter):
         # get_token_at_offset
         base = starts[a]
         glen = starts[b] - base
-        if g is stmt and glen <= 400:
+        if g is stmt and glen <= 150:
             offs = range(-1, glen + 2)
         else:
-            offs = {-1, glen, glen + 1}
-            for k in range(a, b):
+            # long statements / inner groups: both border offsets of (at most ~32 evenly spread) leaves
+            offs = {-1, 0, glen - 1, glen, glen + 1}
+            step = max(1, (b - a) // (32 if g is stmt else 8))
+            for k in range(a, b, step):
                 offs.add(starts[k] - base)
                 offs.add(starts[k + 1] - 1 - base)
             offs = sorted(offs)
@@ -523,7 +527,8 @@ def _c03_statement(text, stmt, sql, T, seen, lex_iter):
             classes.append(type(g))
     all_groups = [g for g, _, _, _ in groups]
     small = len(nodes) * len(all_groups) <= 3000
-    for node, parent, anc in nodes:
+    check_nodes = nodes if len(nodes) <= 150 else nodes[::len(nodes) // 150 + 1]
+    for node, parent, anc in check_nodes:
         for cls in classes:
             exp = any(isinstance(x, cls) for x in anc)
             try:
